@@ -220,7 +220,7 @@ def gen_scripts(ctx, p, n, tag):
     return out
 
 
-def decorate(script, rnd, mode):
+def decorate(script, rnd, mode, p=None):
     """Scheduling the model leaves open: does the dispatcher wait for a call to return before it
     starts the next one, or how long does it pause; where the complete configuration quiesces."""
     ops = []
@@ -228,6 +228,11 @@ def decorate(script, rnd, mode):
     for o in script:
         op = {"a": o["a"], "p": o["p"], "ks": sorted(o["ks"]), "m": o["m"], "fence": False,
               "wait": rnd.random() < 0.45, "delay_us": rnd.choice([0, 0, 30, 200, 1500])}
+        if o["a"] == "write" and p and not [w for w in p["writers"] if w["id"] == o["p"]][0]["sync"] and rnd.random() < 0.7:
+            op["wait"], op["delay_us"] = False, 0     # bursts: several requests of one writer in flight
+            burst = True
+        else:
+            burst = False
         if mode == "complete":
             if o["a"] == "dbclose":
                 op["fence"] = True
@@ -239,7 +244,7 @@ def decorate(script, rnd, mode):
                 op["fence"] = True
             fence_next = o["a"] == "write" and rnd.random() < 0.15
         else:
-            if o["a"] == "write":
+            if o["a"] == "write" and not burst:
                 op["delay_us"] = rnd.choice([0, 200, 3000, 12000, 25000])
         ops.append(op)
     return ops
@@ -345,7 +350,7 @@ def tlc_trace(ctx, p, mode, items, tag, timeout=1800):
     raise vlib.Inconclusive("cannot locate rejected event %s" % hw)
 
 
-def validate(ctx, p, mode, items, tag):
+def validate(ctx, p, mode, items, tag, stop_after=4, chunk=60):
     """Validates all items. First in large concatenations (depth-first, stops at the first complete
     explanation: fast when everything is accepted); a concatenation that is rejected or does not finish
     is re-validated scenario by scenario (a rejection needs the exhaustive search of that scenario only).
@@ -354,7 +359,6 @@ def validate(ctx, p, mode, items, tag):
     stats = {"distinct": 0, "generated": 0, "accepted": 0}
     rejected = []
     singles = []
-    chunk = 60
     for k in range(0, len(items), chunk):
         cur = items[k:k + chunk]
         try:
@@ -377,16 +381,18 @@ def validate(ctx, p, mode, items, tag):
         n, it = a
         return it, tlc_trace(ctx, p, mode, [it], "%s_s%d" % (tag, n), timeout=1800)
 
-    if singles:
-        with ThreadPoolExecutor(max_workers=4) as ex:
-            for it, (st, bad) in ex.map(one, list(enumerate(singles))):
+    todo = list(enumerate(singles))
+    while todo and len([r for r in rejected if classify(p, mode, r[1], r[2])[0]]) < stop_after:
+        batch, todo = todo[:6], todo[6:]
+        with ThreadPoolExecutor(max_workers=6) as ex:
+            for it, (st, bad) in ex.map(one, batch):
                 stats["distinct"] += st["distinct"]
                 stats["generated"] += st["generated"]
                 if bad is None:
                     stats["accepted"] += 1
                 else:
                     rejected.append((it[0], it[1], bad[1]))
-    return stats, rejected[:6]
+    return stats, rejected
 
 
 # ------------------------------------------------------------------ classification
@@ -498,6 +504,9 @@ def classify(p, mode, evs, idx):
                     poss = subs_possible(s, a, Q)
                     must = [k for k in W[w]["keys"] if not maybe_unauth(w, k, a, b) and poss and all(k in K for K in poss)]
                     if must and not (seen.get((s, w, q), INF) < Q):
+                        if any(x["ev"] == "recv" and x["p"] == s and x["m"] == w and x["q"] == q for x in evs[Q:]):
+                            # read after the fence of ANOTHER writer: an order the statement does not fix
+                            return None, "frame (%s,%d) reached %s after the fence frame written later by another writer" % (w, q, s)
                         return "lost-frame", ("always-ready streamer %s never read frame (%s,%d) (channels %s subscribed "
                                               "and authorized) although the relay had drained" % (s, w, q, must))
     return None, "event #%d %s is not explained by Relay.tla" % (idx, json.dumps(evs[idx]) if 0 <= idx < len(evs) else "?")
@@ -508,8 +517,8 @@ def blocked_signature(mode, res):
     stuck = [s for s in res.get("stuck", []) if s["healthy"]]
     ops = [s["op"] for s in stuck]
     pend = " ".join(res.get("pending", []))
-    wblocked = any(o in ("write", "wclose", "wopen", "flush", "fencewrite") for o in ops) or \
-        re.search(r":(write|wclose|wopen|flush|fencewrite) ", pend)
+    wblocked = any(o in ("write", "wclose", "wopen", "flush", "fencewrite", "probewrite") for o in ops) or \
+        re.search(r":(write|wclose|wopen|flush|fencewrite|probewrite) ", pend)
     ctxops = sorted(set(o for o in ops if o in ("sopen", "ssub", "sclose", "dbclose")) |
                     set(m.group(1) for m in re.finditer(r":(sopen|ssub|sclose|dbclose) ", pend)))
     if wblocked:
@@ -521,7 +530,7 @@ def blocked_signature(mode, res):
 
 # ------------------------------------------------------------------ run
 def one_config(ctx, p, mode, scripts, rnd, tag, race, cov):
-    scenarios = [{"i": i, "script": decorate(s, rnd, mode)} for i, s in enumerate(scripts)]
+    scenarios = [{"i": i, "script": decorate(s, rnd, mode, p)} for i, s in enumerate(scripts)]
     results = run_harness(ctx, p, mode, scenarios, tag, race=race)
     items, errors = [], []
     for scn in scenarios:
@@ -558,8 +567,7 @@ def one_config(ctx, p, mode, scripts, rnd, tag, race, cov):
         cov["samples"].append({"config": "%s/%s" % (p["name"], mode), "script": [
             "%s(%s%s)" % (o["a"], o["p"], (":" + "+".join(o["ks"])) if o["ks"] else "") for o in scn["script"]],
             "events": len(evs)})
-    for scn, evs, idx in rejected:
-        handle_rejection(ctx, p, mode, scn, evs, idx, race)
+    handle_rejections(ctx, p, mode, rejected, race)
 
 
 def rerun(ctx, p, mode, scn, n, tag, race):
@@ -567,21 +575,45 @@ def rerun(ctx, p, mode, scn, n, tag, race):
     return run_harness(ctx, p, mode, scs, tag, race=race, workers=2)
 
 
-def handle_rejection(ctx, p, mode, scn, evs, idx, race):
-    cls, text = classify(p, mode, evs, idx)
-    if cls is None:
-        raise vlib.Inconclusive("DRIFT %s/%s: %s; script %s" % (p["name"], mode, text, json.dumps(scn["script"])[:1500]))
-    # reproduce: same script from scratch, several times (a racy defect needs the schedule again)
-    res = rerun(ctx, p, mode, scn, NREP, "repro", race)
-    items = [(scn, r["events"]) for r in res.values() if r["status"] == "ok"]
-    _, rej = validate(ctx, p, mode, items, "repro")
-    again = [classify(p, mode, e, i)[0] for _, e, i in rej]
-    if cls not in again:
-        raise vlib.Inconclusive("%s (%s/%s) did not reproduce in %d re-executions: %s" % (cls, p["name"], mode, NREP, text))
-    ctx.report("C20 %s %s" % (mode, cls), "%s configuration, cast %s: %s" % (mode, p["name"], text),
-               {"profile": p, "mode": mode, "script": scn["script"], "events": evs, "unexplained_event": idx,
-                "reproduced": "%d of %d re-executions" % (again.count(cls), NREP),
-                "cmd": "python3 tools/verif.py replay C20 <this file>"})
+def handle_rejections(ctx, p, mode, rejected, race):
+    """Rejected traces whose events contradict a clause of the statement (classify) are re-executed
+    and reported when the contradiction shows again; rejections that contradict only what Relay.tla
+    pins beyond the statement (e.g. the moment a re-subscription takes effect) are drift."""
+    if not rejected:
+        return
+    classified = [(scn, evs, idx) + classify(p, mode, evs, idx) for scn, evs, idx in rejected]
+    clear = [c for c in classified if c[3]]
+    if not clear:
+        scn, evs, idx, _, text = classified[0]
+        fn = ctx.save_replay({"profile": p, "mode": mode, "script": scn["script"], "events": evs,
+                              "unexplained_event": idx, "drift": True}, name="drift-%s-%d.json" % (ctx.tier, ctx.seed))
+        raise vlib.Inconclusive("DRIFT %s/%s: %s (no clause of the statement contradicted); %s" % (p["name"], mode, text, fn))
+    done = {}
+    for scn, evs, idx, cls, text in clear:
+        if done.get(cls, 0) >= 2 or any(v[0] == "C20 %s %s" % (mode, cls) for v in ctx.violations) or len(ctx.violations) >= 2:
+            continue
+        done[cls] = done.get(cls, 0) + 1
+        # reproduce: same script from scratch, several times (a racy defect needs the schedule again)
+        res = rerun(ctx, p, mode, scn, NREP, "repro", race)
+        items = [(scn, r["events"]) for r in res.values() if r["status"] == "ok"]
+        hits = 0
+        for k, it in enumerate(items):
+            st, bad = tlc_trace(ctx, p, mode, [it], "repro_%d" % k, timeout=1800)
+            if bad and classify(p, mode, it[1], bad[1])[0] == cls:
+                hits += 1
+                if hits >= 2:
+                    break
+        if not hits:
+            ctx.notes.append("%s (%s/%s) did not reproduce in %d re-executions: %s" % (cls, p["name"], mode, NREP, text))
+            continue
+        ctx.report("C20 %s %s" % (mode, cls), "%s configuration, cast %s: %s" % (mode, p["name"], text),
+                   {"profile": p, "mode": mode, "script": scn["script"], "events": evs, "unexplained_event": idx,
+                    "reproduced": True, "cmd": "python3 tools/verif.py replay C20 <this file>"})
+
+
+def unreproduced(ctx):
+    if ctx.notes and not ctx.violations:
+        raise vlib.Inconclusive("rejected traces did not reproduce: " + "; ".join(ctx.notes[:3]))
 
 
 def handle_blocked(ctx, p, mode, scn, r, race):
@@ -629,7 +661,9 @@ def run(ctx):
             raise vlib.Inconclusive("only %d scripts generated for cast %s" % (len(scripts), p["name"]))
         scripts = vlib.sample(scripts, n, ctx.seed)
         for mode in ("complete", "lossy"):
-            one_config(ctx, p, mode, scripts, rnd, "%s_%s" % (p["name"], mode[0]), thorough, cov)
+            if not ctx.violations:   # a violating tree is reported at the first configuration that shows it
+                one_config(ctx, p, mode, scripts, rnd, "%s_%s" % (p["name"], mode[0]), thorough, cov)
+    unreproduced(ctx)
     probe(ctx, profiles(False)[0], cov)
     m = cov["mech"]
     need = ["writes", "recv", "sopen", "ssub", "sclose_graceful", "sclose_cancel", "quiesce", "unauthorized_writes", "orphaned"]
@@ -688,7 +722,7 @@ def replay(ctx, path):
         print("  %s: %s" % (blocked_signature(mode, blocked[0])[0], blocked[0].get("pending")))
         return 1
     items = [(scn, r["events"]) for r in res.values() if r["status"] == "ok"]
-    _, rej = validate(ctx, p, mode, items, "replay")
+    _, rej = validate(ctx, p, mode, items, "replay", chunk=1)
     for _, evs, idx in rej:
         cls, text = classify(p, mode, evs, idx)
         if cls:
@@ -705,7 +739,7 @@ def selftest(ctx):
     p = profiles(False)[0]
     rnd = random.Random(7)
     scripts = gen_scripts(ctx, p, 20, "self")[:8]
-    scenarios = [{"i": i, "script": decorate(s, rnd, "complete")} for i, s in enumerate(scripts)]
+    scenarios = [{"i": i, "script": decorate(s, rnd, "complete", p)} for i, s in enumerate(scripts)]
     res = run_harness(ctx, p, "complete", scenarios, "self")
     items = [(s, res[s["i"]]["events"]) for s in scenarios if res[s["i"]]["status"] == "ok"]
     _, rej = validate(ctx, p, "complete", items, "self_ok")
